@@ -2,11 +2,15 @@
 """C14 - namespaces keep their identity; output is independent of process history.
 
 proof:          lean/OdfModel/Props/C14.lean (init0_ok, tableOK_reachable, one_prefix_per_namespace, one_namespace_per_prefix,
-                empty_namespace_never_bound, history_independent(_runs), value_prefix_declared, finding_value_prefix_unknown)
+                empty_namespace_never_bound, history_independent(_runs), value_prefix_declared, value_prefix_declared_all_histories,
+                value_prefix_declared_after_setAttrNS, finding_value_prefix_unknown)
 correspondence: get_nsprefix histories in fresh interpreters vs `run initial` (prefixes and final table); __save_prefix
+                Element.namespaces after setAttrNS of every prefixed-value attribute (c14vp) vs get_nsprefix + savePrefix
 oracle:         bijection / empty-namespace / declared-prefix conditions on the real root element; the same trees serialised in a
                 fresh interpreter and after a random history (other trees, foreign namespaces, loading sample packages with MathML /
-                unqualified attributes) compared after independent parsing
+                unqualified attributes) compared after independent parsing; c14vp.py: prefixed values in every attribute the schema /
+                the ODF prose types as formula or namespaced token (API + load), loaded packages with a refused value next to a
+                namespace not met before (first / second save in a fresh interpreter)
 """
 import glob, os, re
 import xmlchecks as C
@@ -98,6 +102,12 @@ def run(chk, replay=None):
     # oracle (load): a prefix declared by the source document and used in a formula must still be declared, and bound to the
     # same namespace, in the package saved after load()
     loaded_value_prefix(chk)
+    # every attribute whose datatype lets the value carry a prefix (list read from the RELAX-NG schema + the prose of ODF 1.2), every
+    # conventional prefix, via the API and via load()+save(), each in a fresh interpreter; and loaded packages in which one element
+    # carries a value invalid for its datatype next to a namespace the process has never met (first and second save)
+    import c14vp
+    c14vp.value_prefix_attrs_check(chk, drv)
+    c14vp.refused_value_check(chk)
     # fixed cases: a loaded package binds a prefix of the generated form ns<k> (k = the next numbers the library would hand out) to a
     # foreign namespace, then new namespaces are registered: no prefix may end up bound twice
     import translate_ns as _tns
